@@ -1,9 +1,9 @@
 package main
 
 const ruleS = "Engine S: scenario = (family, index) under VERIF_SEED: worker limit N in {1,2,3,4,5,8,16,64,default}, fail-fast or ContinueOnError, " +
-	"random DAG (chains, diamonds, fan-in up to 8, duplicate deps), per-job behaviour {ok,error,Goexit,cancel}, delays, enqueue pacing " +
+	"random DAG (chains, diamonds, fan-in up to 8, duplicate deps; family fanin: one job with more than 65536 unfinished dependencies), per-job behaviour {ok,error,Goexit,cancel}, job errors of several kinds (plain, with a permissive Is method, unwrapping to a context error), delays, enqueue pacing " +
 	"(immediate / after yields / after a dependency ended / after a failure), concurrent enqueuers, cancellation plan, optional 1ns state emitter, " +
-	"seeded perturbation at the verif hook points; run against the scheduler package built from /repo's working tree. " +
+	"seeded perturbation at the verif hook points (family cancelgot: workers held between receiving a job and looking at its context until cancel() has returned; family emitgx: the state emitter kills the loop goroutine with runtime.Goexit); run against the scheduler package built from /repo's working tree. " +
 	"distinct = distinct scenario encodings; non-trivial for this property: "
 
 var assumeS = []string{
@@ -25,7 +25,7 @@ func schedC12(c *ctx) map[string]interface{} {
 }
 
 func schedC01(c *ctx) map[string]interface{} {
-	a := runSched(c, []famCount{{"mix", c.scale(2000)}, {"coe", c.scale(600)}, {"failfast", c.scale(600)}, {"drain", c.scale(200)}}, false)
+	a := runSched(c, []famCount{{"mix", c.scale(2000)}, {"coe", c.scale(600)}, {"failfast", c.scale(600)}, {"drain", c.scale(200)}, {"fanin", c.pick(4, 60)}}, false)
 	return a.coverage(ruleS + "some started job has >= 2 distinct dependencies, or the loop saw an enqueue whose dependency had already finished")
 }
 
@@ -35,12 +35,12 @@ func schedC03(c *ctx) map[string]interface{} {
 }
 
 func schedC05(c *ctx) map[string]interface{} {
-	a := runSched(c, []famCount{{"mix", c.scale(1500)}, {"drain", c.scale(1200)}, {"failfast", c.scale(500)}, {"coe", c.scale(500)}, {"cancel", c.scale(500)}}, false)
+	a := runSched(c, []famCount{{"mix", c.scale(1500)}, {"drain", c.scale(1200)}, {"failfast", c.scale(500)}, {"coe", c.scale(500)}, {"cancel", c.scale(500)}, {"emitgx", c.scale(300)}}, false)
 	return a.coverage(ruleS + "at least two jobs (every scenario exercises Enqueue*, Wait and the exit paths)")
 }
 
 func schedC06(c *ctx) map[string]interface{} {
-	a := runSched(c, []famCount{{"drain", c.scale(1500)}, {"failfast", c.scale(900)}, {"mix", c.scale(900)}, {"cancel", c.scale(500)}, {"coe", c.scale(400)}, {"prompt", c.scale(300)}}, false)
+	a := runSched(c, []famCount{{"drain", c.scale(1500)}, {"failfast", c.scale(900)}, {"mix", c.scale(900)}, {"cancel", c.scale(500)}, {"coe", c.scale(400)}, {"prompt", c.scale(300)}, {"emitgx", c.scale(200)}}, false)
 	return a.coverage(ruleS + "at least two jobs; after every scenario the process must return to its goroutine baseline (leaks are diagnosed from three stable dumps)")
 }
 
@@ -55,7 +55,7 @@ func schedC08(c *ctx) map[string]interface{} {
 }
 
 func schedC09(c *ctx) map[string]interface{} {
-	a := runSched(c, []famCount{{"cancel", c.scale(2500)}, {"prompt", c.scale(600)}, {"saturate", c.scale(600)}, {"mix", c.scale(500)}}, false)
+	a := runSched(c, []famCount{{"cancel", c.scale(2500)}, {"prompt", c.scale(600)}, {"saturate", c.scale(600)}, {"cancelgot", c.scale(600)}, {"mix", c.scale(500)}}, false)
 	return a.coverage(ruleS + "the context was cancelled and either some job was in the must-not-start set (depends on the cancelling job / submitted after cancel() returned / all workers held until after cancel()) or at least two jobs were submitted")
 }
 
